@@ -1,7 +1,7 @@
 (* Props/C04.v — property C04: Invoke, Stream, Collect and Transform of a compiled graph
    agree.  Only statements, each closed by [exact]; the proofs are in Proofs/Paradigm*.v. *)
 From Eino Require Import Base.Util Model.Paradigm Model.StreamOps Model.ParadigmProg
-  Proofs.Paradigm.
+  Model.ParadigmSpec Proofs.Paradigm Proofs.ParadigmOps Proofs.ParadigmProg Proofs.ParadigmSpec.
 
 (* ------------------------------------------------------------------ node level *)
 
@@ -45,3 +45,169 @@ Theorem views_agree :
       /\ forall x, agree (sconcatR cB (view_S n x)) (view_I cB n x).
 Proof. exact views_agree_lem. Qed.
 Print Assumptions views_agree.
+
+(* ------------------------------------------------------------------ operation level *)
+
+(* fan-out (copyItem): every copy concatenates to what the original concatenates to *)
+Theorem concat_copy :
+  forall (n : nat) (s c : stream val), In c (s_copy n s) -> vsconcat c = vsconcat s.
+Proof. exact concat_copy_lem. Qed.
+Print Assumptions concat_copy.
+
+(* fan-in (mergeValues, stream branch): whatever order-preserving interleaving
+   MergeStreamReaders produces of two or more map streams with pairwise disjoint keys, it
+   concatenates to mergeMap of the sources' concatenations *)
+Theorem concat_merge :
+  forall (ls : list (stream val)) (ms : list amap) (t : stream val),
+    Forall2 (fun s m => vsconcat s = Ok (VM m)) ls ms ->
+    2 <= List.length ls ->
+    Interleaving ls t ->
+    disjoint_keys [] ms = true ->
+    vsconcat t = v_merge (map VM ms).
+Proof. exact concat_merge_lem. Qed.
+Print Assumptions concat_merge.
+
+(* ... and a source that does not concatenate (error item, ...) makes every interleaving
+   fail to concatenate: the failure reaches the consumer in stream mode too *)
+Theorem merge_propagates_failure :
+  forall (ls : list (stream val)) (t s : stream val),
+    Interleaving ls t -> In s ls -> s <> [] -> failed (vsconcat s) -> failed (vsconcat t).
+Proof. exact merge_failed. Qed.
+Print Assumptions merge_propagates_failure.
+
+(* WithOutputKey: stream form (streamReader.withKey) against value form *)
+Theorem concat_withKey :
+  forall (k : N) (s : stream val), s <> [] ->
+    agree (vsconcat (s_withKey k s)) (res_bind (vsconcat s) (v_withKey k)).
+Proof. exact concat_withKey_lem. Qed.
+Print Assumptions concat_withKey.
+
+(* WithInputKey: stream form (defaultStreamMapFilter) against value form, when the
+   concatenated input carries the key (hypothesis: finding F-C04b is the other case) *)
+Theorem concat_keyFilter :
+  forall (k : N) (s : stream val), s <> [] ->
+    (forall m, vsconcat s = Ok (VM m) -> mhas k m = true) ->
+    agree (vsconcat (s_keyFilter k s)) (res_bind (vsconcat s) (v_getKey k))
+    /\ s_keyFilter k s <> [].
+Proof. exact concat_keyFilter_lem. Qed.
+Print Assumptions concat_keyFilter.
+
+(* ------------------------------------------------------------------ graph level *)
+
+(* simulation: for every graph built from consistent nodes ([prog_ok]), every choice of
+   interleaving at every fan-in, every position, every non-empty input stream (any
+   chunking, error items included) whose concatenation — if it has one — is in the domain:
+   the stream-mode run, concatenated, agrees with the value-mode run on the concatenated
+   input (same value, or a failure on both sides), and delivers a non-empty stream *)
+Theorem run_sim :
+  forall (mrg : list nat -> list (stream val) -> stream val),
+    (forall pos ls, Interleaving ls (mrg pos ls)) ->
+    forall p, prog_ok p ->
+    forall pos s, s <> [] -> (forall x, vsconcat s = Ok x -> dom_ok p x = true) ->
+      agree (vsconcatR (run_stream mrg pos p s)) (res_bind (vsconcat s) (run_value p))
+      /\ (forall o, run_stream mrg pos p s = Ok o -> o <> []).
+Proof. exact run_sim_lem. Qed.
+Print Assumptions run_sim.
+
+(* the four public paradigms of one compiled graph agree *)
+Theorem stream_invoke_agree :
+  forall (mrg : list nat -> list (stream val) -> stream val),
+    (forall pos ls, Interleaving ls (mrg pos ls)) ->
+    forall p, prog_ok p ->
+    forall chunks x, chunks <> [] -> vsconcat (map Val chunks) = Ok x -> dom_ok p x = true ->
+      agree (vsconcatR (g_stream mrg p x)) (g_invoke p x)
+      /\ agree (g_collect mrg p (map Val chunks)) (g_invoke p x)
+      /\ agree (vsconcatR (g_transform mrg p (map Val chunks))) (g_invoke p x).
+Proof. exact four_paradigms_lem. Qed.
+Print Assumptions stream_invoke_agree.
+
+(* ------------------------------------------------------------------ the graphs of the harness *)
+
+(* the hypotheses [node_consistent] / [node_ok] hold for every node body the harness can
+   build: any native subset, any splitting policy, any failure mode, chunk-by-chunk or
+   collecting transformer *)
+Theorem harness_node_consistent :
+  forall sp, spec_wf sp = true ->
+    node_consistent val val vconcat vconcat (node_of_spec sp) (spec_fun sp).
+Proof. exact spec_consistent. Qed.
+Print Assumptions harness_node_consistent.
+
+Theorem harness_graph_ok : forall p, sprog_wf p = true -> prog_ok (compile_sprog p).
+Proof. exact compile_ok. Qed.
+Print Assumptions harness_graph_ok.
+
+(* hence, for every graph the harness can build (the correspondence runs exactly
+   [compile_sprog p] and evaluates [sprog_wf] and [dom_ok] on every case): *)
+Theorem harness_graphs_agree :
+  forall (mrg : list nat -> list (stream val) -> stream val),
+    (forall pos ls, Interleaving ls (mrg pos ls)) ->
+    forall p, sprog_wf p = true ->
+    forall chunks x, chunks <> [] -> vsconcat (map Val chunks) = Ok x ->
+      dom_ok (compile_sprog p) x = true ->
+      agree (vsconcatR (g_stream mrg (compile_sprog p) x)) (g_invoke (compile_sprog p) x)
+      /\ agree (g_collect mrg (compile_sprog p) (map Val chunks)) (g_invoke (compile_sprog p) x)
+      /\ agree (vsconcatR (g_transform mrg (compile_sprog p) (map Val chunks))) (g_invoke (compile_sprog p) x).
+Proof. exact harness_graphs_agree_lem. Qed.
+Print Assumptions harness_graphs_agree.
+
+(* non-vacuity: a graph with fan-out, fan-in, derived views and a stream branch that is
+   well-formed, in the domain, and succeeds with a value in both modes; the interleaving
+   hypothesis is satisfiable *)
+Example agree_nonvacuous :
+  sprog_wf mixed_prog = true
+  /\ vsconcat (map Val [VS "ab"%string; VS "c"%string]) = Ok (VS "abc"%string)
+  /\ dom_ok (compile_sprog mixed_prog) (VS "abc"%string) = true
+  /\ g_invoke (compile_sprog mixed_prog) (VS "abc"%string)
+     = Ok (VM [(2%N, "n6<n3{aa=n1(abc);ab=n2(abc);}"%string); (3%N, "n3{aa=n1(abc);ab=n2(abc);}>"%string)])
+  /\ vsconcatR (g_transform seq_mrg (compile_sprog mixed_prog) (map Val [VS "ab"%string; VS "c"%string]))
+     = g_invoke (compile_sprog mixed_prog) (VS "abc"%string).
+Proof. exact mixed_prog_in_domain. Qed.
+
+Example interleaving_nonvacuous : forall pos ls, Interleaving ls (seq_mrg pos ls).
+Proof. exact seq_mrg_interleaving. Qed.
+
+(* ------------------------------------------------------------------ outside the domain *)
+
+(* finding F-C04: without [dom_ok] the agreement fails — two predecessors of a fan-in emit
+   the same key: Invoke fails (mergeMap: duplicated key), Stream succeeds *)
+Theorem fanin_dupkey_refuted :
+  sprog_wf dupkey_prog = true
+  /\ dom_ok (compile_sprog dupkey_prog) (VS "x"%string) = false
+  /\ g_invoke (compile_sprog dupkey_prog) (VS "x"%string) = Err e_dupkey
+  /\ vsconcatR (g_stream seq_mrg (compile_sprog dupkey_prog) (VS "x"%string))
+     = Ok (VM [(5%N, "n3{aa=n1(x)n2(x);}"%string)])
+  /\ ~ agree (vsconcatR (g_stream seq_mrg (compile_sprog dupkey_prog) (VS "x"%string)))
+             (g_invoke (compile_sprog dupkey_prog) (VS "x"%string)).
+Proof. exact fanin_dupkey_refuted_lem. Qed.
+Print Assumptions fanin_dupkey_refuted.
+
+(* ... and what the stream run delivers there depends on the interleaving *)
+Theorem fanin_dupkey_order_dependent :
+  v_merge [VM [(0%N, "A"%string)]; VM [(0%N, "B"%string)]] = Err e_dupkey
+  /\ Interleaving [dup_src1; dup_src2] (dup_src1 ++ dup_src2)
+  /\ Interleaving [dup_src1; dup_src2] (dup_src2 ++ dup_src1)
+  /\ vsconcat (dup_src1 ++ dup_src2) = Ok (VM [(0%N, "AB"%string)])
+  /\ vsconcat (dup_src2 ++ dup_src1) = Ok (VM [(0%N, "BA"%string)]).
+Proof. exact fanin_dupkey_witness. Qed.
+Print Assumptions fanin_dupkey_order_dependent.
+
+(* finding F-C04b: an input key that no chunk carries — Invoke fails (cannot find input
+   key), in stream mode the filter drops every chunk and a Transform-native node runs on
+   the empty stream and succeeds *)
+Theorem inkey_missing_refuted :
+  sprog_wf nokey_prog = true
+  /\ dom_ok (compile_sprog nokey_prog) (VM [(0%N, "v"%string)]) = false
+  /\ g_invoke (compile_sprog nokey_prog) (VM [(0%N, "v"%string)]) = Err e_nokey
+  /\ vsconcatR (g_stream seq_mrg (compile_sprog nokey_prog) (VM [(0%N, "v"%string)]))
+     = Ok (VS "n1()"%string)
+  /\ ~ agree (vsconcatR (g_stream seq_mrg (compile_sprog nokey_prog) (VM [(0%N, "v"%string)])))
+             (g_invoke (compile_sprog nokey_prog) (VM [(0%N, "v"%string)])).
+Proof. exact inkey_missing_refuted_lem. Qed.
+Print Assumptions inkey_missing_refuted.
+
+(* mechanism of F-C04b at the operation level *)
+Theorem keyFilter_missing_key :
+  forall (k : N) (ms : list amap), ms <> [] -> mhas k (mval ms) = false ->
+    s_keyFilter k (sVM ms) = [] /\ res_bind (vsconcat (sVM ms)) (v_getKey k) = Err e_nokey.
+Proof. exact keyFilter_missing. Qed.
+Print Assumptions keyFilter_missing_key.
